@@ -163,6 +163,8 @@ def body_io(ctx, case):
                 ctx.check(not os.path.exists(path), "file_written_despite_missing_component", desc)
             return
         ctx.check(saved, "save_raises", lambda: "%r; " % (err,) + desc())
+        if case["via"] == "path":
+            ctx.check(os.path.exists(path), "save_reports_success_but_writes_no_file", lambda: "page of %d lines; " % (len(list(l1.lines_iterator())),) + desc())
         # history: the target layout has been used before (densified, as ALTO export / confidence estimation / decoding do)
         for line in l2.lines_iterator():
             line.get_dense_logits()
